@@ -1,0 +1,75 @@
+//go:build verif
+
+// Contracts for gvc (/verif). Comment-only: this file adds no declarations.
+
+package wcwidth
+
+// C34: width handling fits text to the requested number of columns.
+//
+// ofrune(r) is the display width of r (OfRune treated as a mathematical
+// function: the override table is assumed constant during one call).
+// pw(s, i) is the width of the characters of s that start before byte offset i,
+// for a decode boundary i; it is defined by the two axioms below.
+
+//@ spec fn ofrune(r rune) int
+//@ spec fn overridden(r rune) bool
+//@ spec fn pw(s string, i int) int
+
+//@ axiom pw_zero(s string)
+//@   ensures pw(s, 0) == 0
+//@ axiom pw_step(s string, i int)
+//@   requires 0 <= i && i < len(s) && boundary(s, i)
+//@   ensures pw(s, i + sizeat(s, i)) == pw(s, i) + ofrune(runeat(s, i))
+//@ axiom ofrune_range(r rune)
+//@   ensures 0 <= ofrune(r) && ofrune(r) <= 4096
+
+//@ func getOverride
+//@   trusted
+//@   pure
+//@   results w ok
+//@   ensures ok == overridden(r)
+//@   ensures ok ==> w == ofrune(r)
+
+//@ func inRange
+//@   props C34
+//@   pure
+
+//@ func OfRune
+//@   props C34
+//@   pure
+//@   fn ofrune
+//@   apply ofrune_range(r)
+//@   ensures !overridden(r) ==> 0 <= result && result <= 2
+
+//@ func Of
+//@   props C34
+//@   pure
+//@   apply pw_zero(s)
+//@   loop 1 apply pw_step(s, range_pos)
+//@   loop 1 apply ofrune_range(r)
+//@   loop 1 invariant w == pw(s, range_pos) && 0 <= w && w <= 4096 * range_pos
+//@   ensures w == pw(s, len(s))
+
+//@ func Trim
+//@   props C34
+//@   pure
+//@   requires 0 <= wmax && wmax < 4294967296
+//@   apply pw_zero(s)
+//@   loop 1 apply pw_step(s, range_pos)
+//@   loop 1 apply ofrune_range(r)
+//@   loop 1 invariant w == pw(s, range_pos) && 0 <= w && w <= wmax
+//   the result is the longest prefix (cut at a character boundary) that fits in wmax columns
+//@   ensures len(result) <= len(s) && result === s[:len(result)] && boundary(s, len(result))
+//@   ensures pw(s, len(result)) <= wmax
+//@   ensures len(result) == len(s) || pw(s, len(result)) + ofrune(runeat(s, len(result))) > wmax
+
+//@ func Force
+//@   props C34
+//@   pure
+//@   requires 0 <= width && width < 4294967296
+//@   apply pw_zero(s)
+//@   loop 1 apply pw_step(s, range_pos)
+//@   loop 1 apply ofrune_range(r)
+//@   loop 1 invariant w == pw(old(s), range_pos) && 0 <= w && w <= width && s === old(s)
+//   kept prefix k bytes, then exactly width - pw(s,k) spaces: total width is exactly `width`
+//@   ensures exists k int :: 0 <= k && k <= len(old(s)) && boundary(old(s), k) && pw(old(s), k) <= width && len(result) == k + (width - pw(old(s), k)) && (k == len(old(s)) || pw(old(s), k) + ofrune(runeat(old(s), k)) > width) && (forall p int :: 0 <= p && p < k ==> result[p] == old(s)[p]) && (forall p int :: k <= p && p < len(result) ==> result[p] == ' ')
